@@ -262,11 +262,14 @@ theorem fillYlyYd_ok (cand : List Nat) (y : Nat) (doy : List Int) (dow : List In
   · exact hb
   exact hb.assC (okMd_VC y _ (ydToMd_ok y _ hyd (by omega)) hm)
 
-theorem ywdToMd_ok (y : Nat) (w : Int) (d : Nat) : okMd y (ywdToMd y w d) = true := by
+theorem ywdToMd_ok (y : Nat) (of : Int) (w : Int) (d : Nat) : okMd y (ywdToMd y of w d) = true := by
   unfold ywdToMd
   dsimp only
   split
   · rfl
+  generalize (if of > 0 then toS32 (ywdGetYday ((y : Int) + of).toNat w d) + (365 + (leapN y : Int))
+    else if of < 0 then toS32 (ywdGetYday ((y : Int) + of).toNat w d) - (365 + (leapN ((y : Int) + of).toNat : Int))
+    else toS32 (ywdGetYday ((y : Int) + of).toNat w d)) = yd
   split
   · rfl
   · exact ydToMd_ok y _ (by omega) (by omega)
@@ -281,9 +284,11 @@ theorem fillYlyYwd_ok (cand : List Nat) (y : Nat) (woy dow : List Int) (hc : All
   dsimp only
   split
   · exact hb
+  refine foldl_inv (AllVC y) _ _ b hb ?_
+  intro b of _ hb
   split
   · exact hb
   · rename_i hm
-    exact hb.assC (okMd_VC y _ (ywdToMd_ok y wk dc.toNat) hm)
+    exact hb.assC (okMd_VC y _ (ywdToMd_ok y of wk dc.toNat) hm)
 
 end Echse.Lemmas.RrCandOk
